@@ -182,6 +182,21 @@ def scenarios(tier: str) -> List[Dict[str, Any]]:
                     lv = [e for e in lways[w2] if e != ["settle"] and e != ["fin", "D"]] if w2 == "DISCONNECT" else lways[w2]
                     out.append(dict(tc=tc, grace=grace, flip=flip, pre=pre, leave=lv, orders=False, leavers=[("D", p2)],
                                     label=f"again/{p1}:{w1}->{p2}:{w2}", then_fin=["D"] if w2 == "DISCONNECT" else []))
+        # the leaver shares its module id (and name) with a connection that stays: what the sibling subscribed to keeps arriving,
+        # broadcast and addressed to the shared id; also a connection that is refused at CONNECT after it had already sent requests
+        for how in ("fin", "rst", "DISCONNECT", "mid"):
+            for dsubs, esubs in (((T1,), (T1,)), ((T1, T2), (T1,)), ((ALL,), (T1, T2))):
+                pre = [["conn", "D"], ev_send("D", v2(tc, "D", am=1)), ["settle"], ["conn", "E"], ev_send("E", v2(tc, "E", mid=IDS["D"], name=NAMES["D"], am=1)), ["settle"]]
+                pre += [ev_send("D", fr(tc, P.MT_SUBSCRIBE, P.p_sub(t), src_mod_id=IDS["D"])) for t in dsubs]
+                pre += [ev_send("E", fr(tc, P.MT_SUBSCRIBE, P.p_sub(t), src_mod_id=IDS["D"])) for t in esubs] + [["settle"]]
+                f = out_frames(tc, "D")
+                leave = {"fin": [["fin", "D"]], "rst": [["rst", "D"]], "DISCONNECT": [ev_send("D", f["DISCONNECT"])], "mid": [ev_send("D", f["DATA"][:50]), ["rst", "D"]]}[how]
+                out.append(dict(tc=tc, grace=grace, flip=flip, pre=pre, leave=leave, orders=False, leavers=[("D", "subscribed")], label=f"sibling-stays/{how}/{len(dsubs)}-{len(esubs)}",
+                                then_fin=["D"] if how == "DISCONNECT" else [], twin=True))
+        for early in ((T1,), (T1, T2)):
+            pre = [["conn", "D"], ["settle"]] + [ev_send("D", fr(tc, P.MT_SUBSCRIBE, P.p_sub(t), src_mod_id=IDS["S"])) for t in early] + [["settle"]]
+            out.append(dict(tc=tc, grace=grace, flip=flip, pre=pre, leave=[ev_send("D", v2(tc, "D", mid=IDS["S"]))], orders=False, leavers=[("D", "refused")],
+                            label=f"refused/dup-id-after-requests/{len(early)}", then_fin=["D"], refused=True))
         # two leavers in the same round
         ways = ["fin", "rst", "DISCONNECT", "mid"]
         ppos = ("subscribed", "suball", "logger") if tier == "thorough" else ("subscribed", "suball")
@@ -232,7 +247,14 @@ def execute(args) -> Dict[str, Any]:
             env.apply(["fin", s])
         env.settle()
         probs += [dict(p) for p in env.problems]
-        if not env.dead and not _own(probs):
+        if sc.get("twin") and not env.dead:
+            # the sibling that stays is still served (lock step decides): broadcast, addressed to the shared id, another type
+            nb = len(env.problems)
+            env.apply(ev_send("P", fr(tc, T1, b"to-all", src_mod_id=IDS["P"]) + fr(tc, T1, b"to-id", src_mod_id=IDS["P"], dest_mod_id=IDS["D"])
+                              + fr(tc, T2, b"t2", src_mod_id=IDS["P"])))
+            env.settle()
+            probs += [dict(p) for p in env.problems[nb:]]
+        elif not env.dead and not _own(probs):
             # (b) independent oracle
             closed = [k for k in env.received["M"] if k[0] == "closed"][closed_before:]
             want = len(sc["leavers"])
